@@ -451,7 +451,7 @@ static bool c14Op(HxLine& l)
     else if(!strcmp(op, "pclose"))
     {
       if(C14Obj* o = c14Live((int)a, C14_CLIENT))
-        if(o->peerFd >= 0)
+        if(o->peerFd >= 0 && o->other)   // only socket-pair peers close (see ModelC14.envStep)
         {
           shutdown(o->peerFd, SHUT_RDWR);
           if(o->other) o->other->close(); else close(o->peerFd);
